@@ -493,6 +493,7 @@ func (k *secKsGen) observe(full bool) {
 	if full {
 		k.op("q-kstate", "kstate")
 		k.op("q-kkeys", "kkeys")
+		k.op("q-klayout", "klayout")
 		k.op("q-kscan", "kscan")
 	}
 }
